@@ -87,6 +87,7 @@ def reset_logs():
 # path accounting: the fd is opened at import (before CrossHair's side-effect auditing starts); os.write on an
 # already-open fd raises no audit event.
 _COUNT_FD = None
+COUNTING = False  # switched on by the last line of every generated harness (warm-up runs are not counted)
 
 
 def _open_counter():
@@ -101,7 +102,7 @@ _open_counter()
 
 def path_done(cond, sig=""):
     """Record that one explored path of condition `cond` reached the end of the aioftp call.  `sig` must be concrete."""
-    if _COUNT_FD is not None:
+    if _COUNT_FD is not None and COUNTING:
         try:
             from crosshair.tracers import NoTracing
 
@@ -132,7 +133,7 @@ class ScriptReader:
     """
 
     def __init__(self, script, eof=True, cuts=None):
-        self.script = [(g, bytes(b)) for g, b in script]
+        self.script = [(g, b) for g, b in script]
         self.eof = eof
         self.cuts = list(cuts or [])
         self.buf = b""
